@@ -15,7 +15,8 @@ SPEC = {
     'assumptions': ['the value a line denotes is judged by the property-specific monitors; here only independence from the convention is judged'],
 }
 
-NUMS = ['1', '2', '5', '10', '12.5', '99.99', '100', '250', '1000', '1234.56', '0.5', '1000000', '19.9', '3', '12345.678', '0.001', '2500', '7.25', '1234567.891']
+NUMS = ['1', '2', '5', '10', '12.5', '99.99', '100', '250', '1000', '1234.56', '0.5', '1000000', '19.9', '3', '12345.678', '0.001', '2500', '7.25', '1234567.891',
+        '1234567890123456789012', '123456789012345678901.5', '98765432109876543210987654321']       # the last three: 21-29 integer digits
 PCTS = ['5', '12.5', '150', '0.5', '1234.5', '2000', '1250000', '1000.25', '99999.9']
 INTS = ['1', '2', '12', '30', '365', '1000', '2500', '10000', '1234567']
 UNITS = [('km', 'mile'), ('mile', 'km'), ('kg', 'lb'), ('stone', 'kg'), ('gb', 'mb'), ('mb', 'byte'), ('inch', 'cm'), ('yard', 'm'), ('tonne', 'kg'), ('oz', 'g'),
@@ -161,6 +162,12 @@ def run_shard(ctx):
     for i, sp in enumerate(SEP_CONFIGS):
         c = 10 + i
         setup += [{'op': 'new_calc', 'c': c, 'seg': (i == 0)}] + mon.gh.config_ops(mon.cfg_with(dec=sp[0], thou=sp[1]), c, seg=False)
+        # a user unit whose conversion codes contain a fraction (codes are written in the internal '.' notation whatever the convention)
+        setup.append({'op': 'add_type', 'c': c, 'name': 'kitchen'})
+        setup.append({'op': 'add_type_item', 'c': c, 'name': 'kitchen', 'index': 1, 'format': '{value} ml', 'parse': ['{NUMBER:value} {TEXT:type:mlq}'],
+                      'up': '{value} / 236.5', 'down': '{value}', 'names': ['mlq']})
+        setup.append({'op': 'add_type_item', 'c': c, 'name': 'kitchen', 'index': 2, 'format': '{value} mug', 'parse': ['{NUMBER:value} {TEXT:type:mugq}'],
+                      'up': '{value}', 'down': '{value} * 236.5', 'names': ['mugq']})
         setup.append({'op': 'add_rule', 'c': c, 'lang': 'en', 'patterns': ['{NUMBER:n} per %s' % render_literal('1000', sp, True), '{NUMBER:n} half %s' % render_literal('0.5', sp)],
                       'spec': {'name': 'per', 'kind': 'encode', 'weights': {'n': 3}}})
     drv.run(setup)
@@ -173,6 +180,9 @@ def run_shard(ctx):
                                ('%s per %s' % (render_literal(nn, sp), render_literal('1000', sp, False)), 3 * float(nn)),
                                ('%s half %s' % (render_literal(nn, sp), render_literal('0.5', sp)), 3 * float(nn))):
                 pp.append((sp, text, want, {'op': 'execute', 'c': 10 + i, 'lang': 'en', 'text': text}))
+            mm = rng.choice(['2.5', '1', '10', '0.5'])
+            pp.append((sp, '%s mugq to mlq' % render_literal(mm, sp), ('unit', float(mm) * 236.5), {'op': 'execute', 'c': 10 + i, 'lang': 'en', 'text': '%s mugq to mlq' % render_literal(mm, sp)}))
+            pp.append((sp, '%s mlq to mugq' % render_literal('473', sp), ('unit', 473 / 236.5), {'op': 'execute', 'c': 10 + i, 'lang': 'en', 'text': '%s mlq to mugq' % render_literal('473', sp)}))
         for (sp, text, want, op), r in zip(pp, drv.run([x[3] for x in pp])):
             if 'lines' not in r and 'panic' not in r:
                 drv.run(setup)          # the driver was restarted after a crash: the calculators of the conventions are set up again
@@ -182,7 +192,13 @@ def run_shard(ctx):
             res.cases += 1
             res.count('class:literal-in-a-registered-pattern')
             res.distinct.add('pattern', sp, text)
-            if mon.kind(slot) == 'number' and mon.fval(slot) == want:
+            if isinstance(want, tuple):
+                if mon.kind(slot) == 'unit' and abs(mon.fval(slot) - want[1]) <= 1e-9 * want[1]:
+                    res.count('ok')
+                else:
+                    res.violation('sep:user-unit-code', 'under %r a user unit registered with the codes "{value} / 236.5" and "{value} * 236.5" should turn %r into %r, got %s'
+                                  % (sp, text, want[1], mon.describe(slot)), {'lang': 'en', 'text': text, 'ops': [o for o in setup if o.get('c') == op['c']] + [op]})
+            elif mon.kind(slot) == 'number' and mon.fval(slot) == want:
                 res.count('ok')
             else:
                 res.violation('sep:pattern-literal', 'under %r a rule registered with the patterns "{NUMBER:n} per %s" / "{NUMBER:n} half %s" should turn %r into %r, got %s'
